@@ -199,8 +199,18 @@ def closeM (rp : List (Nat × Bytes)) : Nat → Mqtt.Model.Broker.B → List Out
 
 /-- one event of the code-shaped model, republishing callbacks included -/
 def stepM (rp : List (Nat × Bytes)) (b : Mqtt.Model.Broker.B) (e : Ev) : Mqtt.Model.Broker.B × List Out :=
-  let r := Mqtt.Model.Broker.step b e
-  if rp.isEmpty then r else closeM rp repubFuel r.1 r.2
+  match e with
+  | .first c f a =>
+    -- a CONNECT that takes a connection over is two phases: the old connection's teardown (its
+    -- will may reach republishing callbacks, whose nested publishes run before the new
+    -- connection exists), then the handshake of the new one
+    let r0 := Mqtt.Model.Broker.takeOver b f a
+    let r0 := if rp.isEmpty then r0 else closeM rp repubFuel r0.1 r0.2
+    let r1 := Mqtt.Model.Broker.first r0.1 c f a
+    (r1.1, r0.2 ++ r1.2)
+  | _ =>
+    let r := Mqtt.Model.Broker.step b e
+    if rp.isEmpty then r else closeM rp repubFuel r.1 r.2
 
 open Mqtt.Spec.Broker in
 def closeS (rp : List (Nat × Bytes)) : Nat → S → List SOut → S × List SOut
@@ -239,8 +249,15 @@ def closeS (rp : List (Nat × Bytes)) : Nat → S → List SOut → S × List SO
 
 /-- one event of the reference broker, republishing callbacks included -/
 def stepS (rp : List (Nat × Bytes)) (s : Mqtt.Spec.Broker.S) (e : Ev) : Mqtt.Spec.Broker.S × List Mqtt.Spec.Broker.SOut :=
-  let r := Mqtt.Spec.Broker.step s e
-  if rp.isEmpty || specUnspecified r.2 then r else closeS rp repubFuel r.1 r.2
+  match e with
+  | .first c f a =>
+    let r0 := Mqtt.Spec.Broker.takeOver s f a
+    let r0 := if rp.isEmpty || specUnspecified r0.2 then r0 else closeS rp repubFuel r0.1 r0.2
+    let r1 := Mqtt.Spec.Broker.first r0.1 c f a
+    (r1.1, r0.2 ++ r1.2)
+  | _ =>
+    let r := Mqtt.Spec.Broker.step s e
+    if rp.isEmpty || specUnspecified r.2 then r else closeS rp repubFuel r.1 r.2
 
 structure St where
   m : Mqtt.Model.Broker.B := {}
@@ -286,6 +303,9 @@ def emitItems (st : St) (held : List (Nat × String)) (own : Option Nat) (keepCo
 /-- `st` already carries the new model / specification states and pending bytes -/
 def emit (st : St) (own : Option Nat) (keepConnack : Bool) (mo : List Out) (so : List Mqtt.Spec.Broker.SOut)
     (boundary : Bool := false) : St × String × String :=
+  -- a connection the broker has torn down (its own end, or a CONNECT with its client identifier,
+  -- MQTT-3.1.4-2) is not mid-packet any more: what was withheld for it is shown with its CLOSED
+  let st : St := { st with pend := st.pend.filter (fun p => st.m.alive p.1) }
   let mi := modelItems mo
   let (mshow, mheld) := emitItems st st.heldM own keepConnack boundary mi.1
   let si := specItems so
